@@ -323,8 +323,9 @@ def check(c):
             def note_(s_):
                 o_ = own_now()
                 expect_self.append(float(o_[0, 0].real) if dens else float(o_[0].abs() ** 2))
-            two_ = MetricEvaluator(1, {"self_nll": lambda s_, **kw_: TS.NLL(s_, row0_.clone(), space), "other_nll": lambda s_, **kw_: TS.NLL(other_, row0_.clone(), sp_o),
-                                       "self_nll_again": lambda s_, **kw_: TS.NLL(s_, row0_.clone(), space)})
+            sp_self, sp_oth = (None, None) if len(c["rows"]) % 2 else (space, sp_o)       # the spaces left to their defaults in half of the cases
+            two_ = MetricEvaluator(1, {"self_nll": lambda s_, **kw_: TS.NLL(s_, row0_.clone(), sp_self), "other_nll": lambda s_, **kw_: TS.NLL(other_, row0_.clone(), sp_oth),
+                                       "self_nll_again": lambda s_, **kw_: TS.NLL(s_, row0_.clone(), sp_self)})
             state.fit(dat_, epochs=2, pos_batch_size=2, lr=0.05, callbacks=[guard_, LambdaCallback(on_batch_end=lambda s_, e_, b_: look_(s_), on_epoch_end=lambda s_, e_: (look_(s_), note_(s_))[0]), two_],
                       **({} if t == "positive" else {"input_bases": np.array([["Z"] * n] * dat_.shape[0])}))
             if not div_[0] and len(two_) == len(expect_self):
